@@ -324,8 +324,20 @@ def _sync_alt_coq():
     if COQ == COQ_SRC:
         return
     os.makedirs(COQ, exist_ok=True)
-    sh(["rsync", "-a", "--delete", "--exclude=Gen/Tables.v", "--include=*/", "--include=*.v", "--exclude=*",
-        COQ_SRC + "/", COQ + "/"], check=True)
+
+    def vfiles(root):
+        res = set()
+        for r, _, names in os.walk(root):
+            for n in names:
+                if n.endswith(".v") and not n.startswith(".") and not (n == "Tables.v" and os.path.basename(r) == "Gen"):
+                    res.add(os.path.relpath(os.path.join(r, n), root))
+        return res
+    for attempt in range(4):     # a source file being rewritten while rsync runs is seen as missing: copy again
+        sh(["rsync", "-a", "--delete", "--exclude=Gen/Tables.v", "--include=*/", "--include=*.v", "--exclude=*",
+            COQ_SRC + "/", COQ + "/"], check=True)
+        if vfiles(COQ_SRC) == vfiles(COQ):
+            break
+        time.sleep(1.0)
     # first use: seed with the compiled files of the main tree to stay incremental
     if not os.path.exists(os.path.join(COQ, ".seeded")):
         sh(["rsync", "-a", "--include=*/", "--include=*.vo", "--include=*.glob", "--include=*.vos", "--include=*.vok", "--include=*.assumptions",
